@@ -281,3 +281,143 @@ pub fn replay(info: &LangInfo, case: &Value, oracle: Oracle) -> Vec<String> {
     }
     msgs
 }
+
+
+// ---------------------------------------------------------------------------------------------------------------------
+// Included-range transitions (C01 "all included-range sets", C04 "also when the included ranges changed"):
+// parse(d, R1) -> [edit] -> parse(d', R2, old) compared with parse(d', R2) from scratch / checked for changed-range coverage.
+
+pub fn ranges_case_json(lang: &str, doc: &[u8], r1: &[(usize, usize)], edit: Option<&Edit>, r2: &[(usize, usize)]) -> Value {
+    json!({"part": "ranges", "lang": lang, "doc": crate::util::bytes_json(doc), "r1": r1, "edit": edit.map(|e| e.to_json()), "r2": r2})
+}
+
+fn set_ranges(parser: &mut Parser, d: &[u8], r: &[(usize, usize)]) {
+    let rs: Vec<tree_sitter::Range> = r.iter().map(|&(s, e)| crate::checks::c13::mk_range(d, s, e)).collect();
+    parser.set_included_ranges(&rs).expect("ordered range list accepted");
+}
+
+/// One included-range transition under the given oracle. An empty list means the default (whole document).
+pub fn check_ranges_transition(info: &LangInfo, parser: &mut Parser, doc: &[u8], r1: &[(usize, usize)], edit: Option<&Edit>, r2: &[(usize, usize)], oracle: Oracle) -> (Vec<(String, String)>, u64, bool) {
+    let lang = &info.language;
+    let mut errs = vec![];
+    set_ranges(parser, doc, r1);
+    let t1 = parser.parse(doc, None).expect("parse");
+    let mut old = t1.clone();
+    let new_text = match edit { Some(e) => { let (nt, ie) = text::apply(doc, e); old.edit(&ie); nt } None => doc.to_vec() };
+    set_ranges(parser, &new_text, r2);
+    let inc = parser.parse(&new_text, Some(&old)).expect("parse");
+    parser.set_included_ranges(&[]).unwrap();
+    let mut outcome = 0u64;
+    let mut nontrivial = false;
+    match oracle {
+        Oracle::C04 => {
+            let tr = Transition { info, new_text: &new_text, old_edited: &old, inc: &inc };
+            if let Some((fp, msg)) = check_c04(&tr) { errs.push((format!("ranges:{}", fp), msg)); }
+            let nr = old.changed_ranges(&inc).count();
+            nontrivial = nr > 0 && r1 != r2;
+            outcome = nr as u64;
+        }
+        _ => {
+            let mut p2 = Parser::new();
+            p2.set_language(lang).unwrap();
+            set_ranges(&mut p2, &new_text, r2);
+            let scr = p2.parse(&new_text, None).expect("parse");
+            let ix = XTree::build(&inc);
+            let sx = XTree::build(&scr);
+            if !sx.has_error_or_missing() {
+                if let Some(diff) = ix.diff_visible(&sx) {
+                    // Known finding: when neither range list covers any text both trees are a lone zero-width root; the re-parse
+                    // keeps the old root (the symmetric difference of two textless range lists is empty), so its position is
+                    // that of the OLD first range, while a from-scratch parse puts it at the start of the new first range.
+                    let lone_empty = |x: &XTree| x.nodes.len() == 1 && x.nodes[0].start == x.nodes[0].end;
+                    let fp = if lone_empty(&ix) && lone_empty(&sx) { "ranges:empty-root-position" } else { "ranges:incremental-differs-from-scratch" };
+                    errs.push((fp.into(), format!("{} | inc={} scratch={}", diff, ix.sexp(lang), sx.sexp(lang))));
+                }
+            } else if !ix.root_has_error() {
+                errs.push(("ranges:incremental-hides-error".into(), format!("inc={} scratch={}", ix.sexp(lang), sx.sexp(lang))));
+            }
+            if inc.included_ranges() != scr.included_ranges() { errs.push(("ranges:tree-included-ranges-differ".into(), format!("{:?} vs {:?}", inc.included_ranges(), scr.included_ranges()))); }
+            nontrivial = r1 != r2 && reuse_happened(&old, &inc);
+            outcome = crate::util::fnv_mix(ix.nodes.len() as u64, sx.has_error_or_missing() as u64);
+        }
+    }
+    // Known finding: an old tree parsed with an (empty) included range that STARTS at u32::MAX has a root whose padding is
+    // u32::MAX bytes; Tree::edit overflows that position (32-bit byte offsets), after which the positions read from the old
+    // tree are meaningless. Such transitions get their own fingerprint.
+    // Known finding (see C13): a range boundary inside a multi-byte character does not cut the character.
+    let splits = |d: &[u8], r: &[(usize, usize)]| match std::str::from_utf8(d) { Ok(st) => r.iter().any(|&(s, e)| [s, e].iter().any(|&b| b < d.len() && !st.is_char_boundary(b))), Err(_) => false };
+    if splits(doc, r1) || splits(&new_text, r2) { for e in errs.iter_mut() { e.0 = "ranges:range-boundary-splits-character".into(); } }
+    if edit.is_some() && r1.iter().any(|&(s, _)| s == u32::MAX as usize) { for e in errs.iter_mut() { e.0 = "ranges:old-tree-starts-at-u32max-then-edited".into(); } }
+    (errs, outcome, nontrivial)
+}
+
+/// all lists of 0..=nr ranges over the byte positions of a document of `len` bytes plus u32::MAX (the empty list = default)
+pub fn range_lists_for(len: usize, nr: usize) -> Vec<Vec<(usize, usize)>> {
+    let mut positions: Vec<usize> = (0..=len).collect();
+    positions.push(u32::MAX as usize);
+    let mut out = vec![vec![]];
+    fn rec(pos: &[usize], from: usize, left: usize, cur: &mut Vec<usize>, out: &mut Vec<Vec<(usize, usize)>>) {
+        if cur.len() % 2 == 0 && !cur.is_empty() { out.push(cur.chunks(2).map(|c| (c[0], c[1])).collect()); }
+        if left == 0 { return; }
+        for i in from..pos.len() { cur.push(pos[i]); rec(pos, i, left - 1, cur, out); cur.pop(); }
+    }
+    rec(&positions, 0, 2 * nr, &mut vec![], &mut out);
+    out
+}
+
+/// The box of included-range transitions for one document: passes = (max doc bytes, max ranges in R1, max ranges in R2, with edits).
+pub fn explore_ranges(ctx: &Ctx, info: &LangInfo, doc: &[u8], passes: &[(usize, usize, usize, bool)], atoms: &[Vec<u8>], oracle: Oracle, res: &mut ShardResult) {
+    let mut parser = Parser::new();
+    parser.set_language(&info.language).unwrap();
+    let mut done: HashSet<(usize, usize, bool)> = HashSet::new();
+    for &(maxlen, n1, n2, with_edits) in passes {
+        if doc.len() > maxlen || doc.is_empty() { continue; }
+        if !done.insert((n1, n2, with_edits)) { continue; }
+        let l1 = range_lists_for(doc.len(), n1);
+        // (inserted atoms of at most 4 bytes: the positions of the new text are all range boundaries of R2)
+        let edits: Vec<Option<Edit>> = if with_edits { edit_alphabet(doc, atoms).into_iter().filter(|e| e.ins.len() <= 4).map(Some).collect() } else { vec![None] };
+        for e in edits.iter() {
+            let new_len = match e { Some(e) => doc.len() - e.old_len + e.ins.len(), None => doc.len() };
+            let l2 = range_lists_for(new_len, n2);
+            for r1 in l1.iter() {
+                for r2 in l2.iter() {
+                    if e.is_none() && r1 == r2 { continue; }
+                    crate::case!("{}", ranges_case_json(&info.name, doc, r1, e.as_ref(), r2));
+                    let (errs, outcome, nontrivial) = check_ranges_transition(info, &mut parser, doc, r1, e.as_ref(), r2, oracle);
+                    res.transitions += 1;
+                    res.count("range_transitions", 1);
+                    if nontrivial { res.nontrivial += 1; }
+                    res.outcome(outcome);
+                    for (fp, m) in errs { res.violation(&fp, m, ranges_case_json(&info.name, doc, r1, e.as_ref(), r2)); }
+                    if res.too_many() { return; }
+                }
+            }
+            if ctx.out_of_time() { let c = "wall-clock budget reached in the included-range box".to_string(); if !res.caps.contains(&c) { res.caps.push(c); } return; }
+        }
+    }
+}
+
+pub fn replay_ranges(info: &LangInfo, case: &Value, oracle: Oracle) -> Vec<String> {
+    let doc = crate::util::bytes_from_json(&case["doc"]);
+    let rl = |v: &Value| -> Vec<(usize, usize)> { v.as_array().map(|a| a.iter().map(|r| (r[0].as_u64().unwrap() as usize, r[1].as_u64().unwrap() as usize)).collect()).unwrap_or_default() };
+    let (r1, r2) = (rl(&case["r1"]), rl(&case["r2"]));
+    let edit = if case["edit"].is_null() { None } else { Some(Edit::from_json(&case["edit"])) };
+    let mut parser = Parser::new();
+    parser.set_language(&info.language).unwrap();
+    {
+        set_ranges(&mut parser, &doc, &r1);
+        let t1 = parser.parse(&doc, None).unwrap();
+        println!("parse(d, R1):        {}", XTree::build(&t1).sexp_pos(&info.language));
+        let mut old = t1.clone();
+        let nt = match &edit { Some(e) => { let (nt, ie) = text::apply(&doc, e); old.edit(&ie); nt } None => doc.clone() };
+        println!("old tree, edited:    {}", XTree::build(&old).sexp_pos(&info.language));
+        set_ranges(&mut parser, &nt, &r2);
+        let inc = parser.parse(&nt, Some(&old)).unwrap();
+        println!("parse(d', R2, old):  {}", XTree::build(&inc).sexp_pos(&info.language));
+        let scr = parser.parse(&nt, None).unwrap();
+        println!("parse(d', R2):       {}", XTree::build(&scr).sexp_pos(&info.language));
+        println!("changed_ranges(old, inc): {:?}", old.changed_ranges(&inc).map(|r| (r.start_byte, r.end_byte)).collect::<Vec<_>>());
+        parser.set_included_ranges(&[]).unwrap();
+    }
+    check_ranges_transition(info, &mut parser, &doc, &r1, edit.as_ref(), &r2, oracle).0.into_iter().map(|(f, m)| format!("{}: {}", f, m)).collect()
+}
